@@ -4063,3 +4063,128 @@ def t_tmp_claim(facts, res, tier):
                 res.fail(key, facts.where(fn, node), "%s stores a value in cctmp and answers ExprType::Tmp without raising `tmp_in_use`: the caller takes cctmp for free and parks the next operand over it" % fn["name"])
     if n == 0:
         raise AnchorMissing("no function answering ExprType::Tmp after a store to cctmp")
+
+
+@rule("T-SIGN-KEYWORD", floor=4,
+      text="the grammar writes the sign of a type as `var_sign = { \"signed\" | \"unsigned\" }`.  Every arm of compile.rs that handles `Rule::var_sign` "
+           "decides by comparing the text of the pair with one of those two words (`p.as_str().eq(\"signed\")`): a comparison with any other string "
+           "(\"return_signed\", left by a renaming) is never true, and `signed char f()` is silently unsigned")
+def t_sign_keyword(facts, res, tier):
+    rules = facts.grammar_rules()
+    words = set()
+
+    def lits(e):
+        if isinstance(e, dict):
+            if e.get("k") == "str":
+                words.add(e["v"])
+            for v in e.values():
+                lits(v)
+    if "var_sign" not in rules:
+        raise AnchorMissing("grammar: rule var_sign not found")
+    lits(rules["var_sign"]["expr"])
+    n = 0
+    for fn in facts.fns:
+        if not fn["file"].endswith("/compile.rs") or fn.get("test"):
+            continue
+        for m in walk(fn["body"]):
+            if m.get("k") != "match":
+                continue
+            for a in m["arms"]:
+                if pat_text(a["pat"]).replace(" ", "") != "Rule::var_sign":
+                    continue
+                n += 1
+                key = "T-SIGN-KEYWORD:%s" % fn["name"]
+                cmps = [x for x in walk(a["body"]) if (x.get("k") == "mcall" and x["method"] in ("eq", "ne", "starts_with", "ends_with", "contains") and x["args"] and x["args"][0].get("k") == "lit")
+                        or (x.get("k") == "binary" and x["op"] in ("==", "!=") and any(s.get("k") == "lit" and s.get("ty") == "str" for s in (x["l"], x["r"])))]
+                used = []
+                for x in cmps:
+                    if x.get("k") == "mcall":
+                        used.append(x["args"][0].get("v"))
+                    else:
+                        used += [s.get("v") for s in (x["l"], x["r"]) if s.get("k") == "lit"]
+                res.inst(key, True, {"function": fn["name"], "compares_with": used, "grammar_words": sorted(words)})
+                if not used:
+                    res.fail(key, facts.where(fn, a["body"]), "%s handles Rule::var_sign without comparing its text with a word of the grammar" % fn["name"])
+                for w in used:
+                    if w not in words:
+                        res.fail(key, facts.where(fn, a["body"]), "%s compares the sign keyword with \"%s\", which the grammar never produces (var_sign is %s): the test is constantly false" % (fn["name"], w, " | ".join(sorted(words))))
+    if n == 0:
+        raise AnchorMissing("compile.rs: no arm for Rule::var_sign")
+
+
+@rule("T-SHIFT-ASSIGN-WIDE", floor=1,
+      text="`v <<= k` / `v >>= k` on a 16-bit operand is done in place on both bytes (generate_shift_16bits).  The arm of generate_expr for the shift "
+           "assignments decides that for a destination at a fixed offset (`Absolute`) and for one indexed by X (`AbsoluteX`): every type the "
+           "indexed test calls 16 bits wide (ShortPtr) is also one the fixed-offset test accepts - `t[2]` and `t[X]` are elements of the same table")
+def t_shift_assign_wide(facts, res, tier):
+    fn = facts.fn("generate_expr", genmodel.GEN_QUAL)
+    n = 0
+    for m in walk(fn["body"]):
+        if m.get("k") != "match":
+            continue
+        for a in m["arms"]:
+            pt = pat_text(a["pat"]).replace(" ", "")
+            if "Operation::Bls(true)" not in pt:
+                continue
+            sets = {}
+            for x in walk(a["body"]):
+                if x.get("k") == "if" and x["cond"].get("k") == "letcond":
+                    kind = re.match(r"ExprType::(Absolute[XY]?)\(", pat_text(x["cond"]["pat"]).replace(" ", ""))
+                    if not kind:
+                        continue
+                    inner = [y for y in walk(x["then"]) if y.get("k") == "if" and any(_self_call(z, ("generate_shift_16bits",)) for z in walk(y["then"]))]
+                    types = set()
+                    for y in inner:
+                        types |= set(re.findall(r"VariableType::(\w+)", expr_text(y["cond"])))
+                    if inner:
+                        sets[kind.group(1)] = types
+            if "Absolute" in sets and "AbsoluteX" in sets:
+                n += 1
+                key = "T-SHIFT-ASSIGN-WIDE:generate_expr"
+                res.inst(key, True, {"fixed_offset": sorted(sets["Absolute"]), "indexed": sorted(sets["AbsoluteX"])})
+                missing = sets["AbsoluteX"] - sets["Absolute"]
+                if missing:
+                    res.fail(key, facts.where(fn, a["body"]), "generate_expr (shift assignment): an element reached through X is shifted on 16 bits for %s, the same element at a constant subscript is not (the fixed-offset test names %s): only its low byte is shifted" % (sorted(missing), sorted(sets["Absolute"])))
+    if n == 0:
+        raise AnchorMissing("generate_expr: the shift-assignment arm with its two width tests was not found")
+
+
+@rule("T-Y-INDEX-LIVE", floor=1,
+      text="in an assignment the destination is evaluated first; `tab[Y]` becomes the operand `tab,Y` that uses the program's own Y.  The right side "
+           "may then park Y and load an index of its own (`*p`, `u[i]`).  Before the store the Assign arm of generate_expr refuses that "
+           "combination: it notes, before the right side is evaluated, that the destination is `AbsoluteY` while no Y is parked, and returns an "
+           "error when a Y has been parked afterwards.  Otherwise `tab[Y] = *p` stores into `tab[0]`")
+def t_y_index_live(facts, res, tier):
+    fn = facts.fn("generate_expr", genmodel.GEN_QUAL)
+    n = 0
+    for m in walk(fn["body"]):
+        if m.get("k") != "match":
+            continue
+        for a in m["arms"]:
+            if pat_text(a["pat"]).replace(" ", "") != "Operation::Assign":
+                continue
+            stmts = a["body"].get("stmts", [])
+            evals = [i for i, s in enumerate(stmts) if s.get("k") == "let" and any(_self_call(x, ("generate_expr",)) for x in walk(s))]
+            store = next((i for i, s in enumerate(stmts) if any(_self_call(x, ("generate_assign",)) for x in walk(s))), None)
+            if len(evals) < 2 or store is None:
+                continue
+            n += 1
+            key = "T-Y-INDEX-LIVE:generate_expr:Assign"
+            noted = None
+            for s in stmts[evals[0] + 1:evals[1]]:
+                if s.get("k") == "let" and s.get("pat", {}).get("k") == "ident":
+                    t = expr_text(s["init"]).replace(" ", "")
+                    if re.search(r"matches!\(\w+,ExprType::AbsoluteY\(", t) and "!self.saved_y" in t:
+                        noted = s["pat"]["name"]
+            refused = False
+            if noted:
+                for s in stmts[evals[1] + 1:store]:
+                    if s.get("k") == "if":
+                        c = expr_text(s["cond"]).replace(" ", "")
+                        if re.search(r"\b%s\b" % re.escape(noted), c) and "self.saved_y" in c and "!self.saved_y" not in c and any(y.get("k") == "return" and "Err(" in expr_text(y) for y in walk(s["then"])):
+                            refused = True
+            res.inst(key, True, {"destination_noted_as": noted, "refused_when_Y_was_parked_by_the_right_side": refused})
+            if not (noted and refused):
+                res.fail(key, facts.where(fn, stmts[store]), "generate_expr (assignment) stores through a destination indexed by the program's Y without refusing the case where the right side has parked Y and loaded another index: the store goes to another element")
+    if n == 0:
+        raise AnchorMissing("generate_expr: the Assign arm was not found")
